@@ -320,8 +320,20 @@ def run(prog: Program, chk: Check):
     if len(refusals) < 1:  # one shared exit (`except _Refused: ...; return False`) is as good as one per check
         raise AnalysisError("anchor vanished: connect_module refusal returns")
     rmn = [n for n in cgm.nodes if any(self_call("remove_module")(c) and c.args and path_of(c.args[0]) == cmp_ for c in node_calls(n))]
+    gs_rm = None
     for n in refusals:
         miss = flow.must_precede(cgm, rmn, [n])
+        if miss and rmn:
+            # path-sensitive second look: a refusal decided earlier and carried in a flag (`ok = False` next to the removal,
+            # `if not ok: return False` later).  Ghost mark "removed" on the edges out of the removal; every state that
+            # reaches this return after a store to the module must carry it.
+            if gs_rm is None:
+                rm_ids = {x.id for x in rmn}
+                fs_ids = {x.id for x in first_store}
+                gs_rm = flow.guard_states(cgm, marks=lambda e: "_removed" if (e.kind != "exc" and e.src in rm_ids) else ("_stored" if (e.kind != "exc" and e.src in fs_ids) else None))
+            sts = gs_rm.at(n)
+            if all(("_removed" in {getattr(x_, "id", None) for x_, _ in p_}) or ("_stored" not in {getattr(x_, "id", None) for x_, _ in p_}) for p_ in sts):
+                miss = []
         F.decide(not miss, fkey(cmf, "refusal-removes"), where(cmf, n.ast), "refusal path removes the refused module",
                  "connect_module refuses (return False) without remove_module(module)")
     # no other module is touched on a refusal: remove_module only ever gets the connecting module here
